@@ -200,6 +200,9 @@ pub struct CellSpec {
     /// the stack is wrapped in a `Parallelogram { scaling, driven, coupled }` (outermost)
     #[serde(default)]
     pub parallelogram: Option<(f64, usize, usize)>,
+    /// the robot is given a CLONE of the safety table the scenario describes
+    #[serde(default)]
+    pub clone_safety: bool,
 }
 
 impl CellSpec {
@@ -283,7 +286,7 @@ impl CellSpec {
                 base_pose: self.base_tf.unwrap_or(PoseSpec::identity()).iso32(),
             }),
             collision_environment: self.environment(),
-            safety: self.safety.build(),
+            safety: self.built_safety(),
         }
     }
 
@@ -319,8 +322,18 @@ impl CellSpec {
                 self.tool.as_ref().expect("constructor needs tool").build(),
                 self.tool_tf.expect("constructor needs tool tf").iso(),
                 self.environment(),
-                self.safety.build(),
+                self.built_safety(),
             ),
+        }
+    }
+
+    /// The safety table handed to the robot: the one the scenario describes, or a clone of it.
+    pub fn built_safety(&self) -> SafetyDistances {
+        let t = self.safety.build();
+        if self.clone_safety {
+            t.clone()
+        } else {
+            t
         }
     }
 }
